@@ -2,6 +2,7 @@ package main
 
 import (
 	"fmt"
+	"path"
 	"strings"
 
 	"github.com/hack-pad/hackpadfs"
@@ -138,6 +139,19 @@ func runC07(r *Rng, n int, replay string) {
 			doneA()
 			doneB()
 			continue
+		}
+		// a view cannot be left through Sub either: an invalid directory is refused, on the view and on the parent
+		for _, bad := range []string{"..", "../x", "../" + path.Base(dir), "a/../b", "x/../../y", "", "/a", "a/", "./a", "a//b"} {
+			for wi, on := range []hackpadfs.FS{view, pa} {
+				_, e := hackpadfs.Sub(on, bad)
+				where := []string{"the view", "the parent"}[wi]
+				switch {
+				case e == nil:
+					c.fail(fmt.Sprintf("[%s] Sub(fs, %q): Sub(%s, %q) was accepted", k.id, dir, where, bad), k.id+":sub-of-view:accepted")
+				case classOf(e) != "EINVAL":
+					c.fail(fmt.Sprintf("[%s] Sub(fs, %q): Sub(%s, %q) failed with %v, not ErrInvalid", k.id, dir, where, bad, e), k.id+":sub-of-view:class")
+				}
+			}
 		}
 		va := &World{FS: view}
 		wb := &World{FS: pb}
